@@ -1,41 +1,151 @@
 /-
 C07 — output is a function of the command line and the seed only.
-Proven here on the model of the generator-state flow of `cli()`; byte identity across real
-processes (hash randomisation, addresses, working directory) is observed by the harness (partial).
-The library half (`seed=` arguments reseed before the first draw) is proved per sampler in
-Props/C13.lean (`seeded_independent_of_state`).
+
+Layer 1 (this file): the generator-state flow of `cli()`.
+  * `Cli/PhaseTable.lean` interprets the phase table that tools/extract_phases.py regenerates from the CURRENT
+    source of cnfgen / pbgen / cnfshuffle (`Generated/Phases.lean`): order of parse / random.seed (with its guard) /
+    build / transformations / header / output, what the `--seed` action does, where something can draw.
+  * `table_run_deterministic`: for EVERY table accepted by the decidable analysis `sound`, every abstract generator,
+    every number of draws in every phase: with a seed on the command line what the output is computed from does not
+    depend on the hidden inputs of the process.  `current_tables_sound` (`decide +kernel` over the generated table)
+    says the current source is accepted — moving `random.seed` behind a draw, seeding from anything but the seed,
+    dropping the seeding action while graph arguments draw during parsing all break that proof.
+  * the hand-written `Variant` of `Cli/Phases.lean` is now COMPUTED from the table (`variantOf`, `sourceVariant`);
+    `source_variant_is_current` ties the asserted `current = ⟨true,true,true⟩` to the source (re-adding
+    `if args.seed:` or removing the re-seeding before the build breaks it), and the three original theorems are
+    re-proved for the computed variant.
+Layer 2: `Props/C07/Sites.lean` (call sites of `random`, seeded library generators), `Props/C07/Hazards.lean`
+  (reviewed list of static process-dependence hazards), `Props/C07/Run.lean` (`cliRun`: whole output text of the
+  random sub-commands as a function of argv and seed).
+Observed only (harness): byte identity across fresh processes with different PYTHONHASHSEED / cwd.
 -/
 import CnfgenModel.Cli.Phases
+import CnfgenModel.Cli.PhaseTable
+import Lemmas.PhaseTable
 namespace Cnfgen.C07
-open Cnfgen.Cli
+open Cnfgen.Cli Cnfgen.GenPh
 
-/-- T-C07.1 with a seed on the command line (any integer, including 0) everything the output is
-computed from is independent of the hidden inputs of the process — for every abstract generator,
-every number of draws made while parsing graph arguments and while building, as long as no
-object is printed by address -/
+/-! ## the table-driven model -/
+
+/-- T-C07.1 (general) a table accepted by the analysis makes everything the output is computed from independent
+of the hidden inputs of the process: for every abstract generator, every seed (0 included), every number of draws
+while parsing graph arguments, building, transforming, shuffling -/
+theorem table_run_deterministic {S : Type} (g : Gen S) (t : ToolPhases) (ht : sound t = true) (c : RunCmd)
+    (s : Int) (hs : c.seed = some s) (hobj : c.printsObject = false) (h₁ h₂ : Hidden S) :
+    runEvents g t c h₁ = runEvents g t c h₂ := by
+  simp only [sound, Bool.and_eq_true] at ht
+  exact runFrom_rel g t c s hs h₁ h₂ t.events false _ _ (init_rel c hobj h₁ h₂) ht.2
+
+/-- the tables regenerated from the CURRENT source of the three tools are accepted -/
+theorem current_tables_sound :
+    ∀ tool ∈ ["cnfgen", "pbgen", "cnfshuffle"], (phasesOf tool).any sound = true := by
+  decide +kernel
+
+/-- T-C07.1 for the current source of cnfgen, pbgen and cnfshuffle -/
+theorem tool_run_deterministic {S : Type} (g : Gen S) (tool : String) (htool : tool ∈ ["cnfgen", "pbgen", "cnfshuffle"])
+    (t : ToolPhases) (ht : phasesOf tool = some t) (c : RunCmd) (s : Int) (hs : c.seed = some s)
+    (hobj : c.printsObject = false) (h₁ h₂ : Hidden S) : runEvents g t c h₁ = runEvents g t c h₂ := by
+  have hsound := current_tables_sound tool htool
+  rw [ht] at hsound
+  exact table_run_deterministic g t (by simpa using hsound) c s hs hobj h₁ h₂
+
+/-- two command lines with the same seed and the same draw counts are observed alike, whatever the processes -/
+theorem table_run_function_of_seed {S : Type} (g : Gen S) (t : ToolPhases) (ht : sound t = true) (c₁ c₂ : RunCmd)
+    (s : Int) (h₁ : c₁.seed = some s) (hc : c₁ = c₂) (ho : c₁.printsObject = false) (e₁ e₂ : Hidden S) :
+    runEvents g t c₁ e₁ = runEvents g t c₂ e₂ := by
+  subst hc
+  exact table_run_deterministic g t ht c₁ s h₁ ho e₁ e₂
+
+/-- T-C07.2 (general) a table that writes `header['random seed'] = args.seed` under `is not None` before the
+output records the seed exactly when one was given -/
+theorem table_header_records_seed {S : Type} (g : Gen S) (t : ToolPhases) (ht : headerRecordsSeed t = true)
+    (c : RunCmd) (h : Hidden S) : (runEvents g t c h).headerSeed = c.seed := by
+  simp only [headerRecordsSeed, Bool.and_eq_true, beq_iff_eq] at ht
+  obtain ⟨hstores, hfilter⟩ := ht
+  have hf : (t.events.takeWhile (fun e => !isOutput e)).filter isHeaderSeed =
+      [.headerSeed .isNotNone "args.seed"] := hfilter
+  have hargs : argsSeed t c.seed = c.seed := by
+    cases hso : t.seedOpt with
+    | none => simp [hso] at hstores
+    | some o => simp only [hso] at hstores; simp [argsSeed, hso, hstores]
+  simp only [runEvents]
+  rw [runFrom_hdr, foldl_hdr_filter, hf]
+  simp only [List.foldl_cons, List.foldl_nil, hdrStep, hargs, St.init, guardFires]
+  cases c.seed <;> simp
+
+theorem current_tables_record_seed :
+    ∀ tool ∈ ["cnfgen", "pbgen"], (phasesOf tool).any headerRecordsSeed = true := by
+  decide +kernel
+
+/-- T-C07.2 for the current source of cnfgen and pbgen -/
+theorem tool_header_records_seed {S : Type} (g : Gen S) (tool : String) (htool : tool ∈ ["cnfgen", "pbgen"])
+    (t : ToolPhases) (ht : phasesOf tool = some t) (c : RunCmd) (h : Hidden S) :
+    (runEvents g t c h).headerSeed = c.seed := by
+  have hh := current_tables_record_seed tool htool
+  rw [ht] at hh
+  exact table_header_records_seed g t (by simpa using hh) c h
+
+/-! ## the `Variant` of the hand-written model is the one the source has -/
+
+/-- the variant computed from the regenerated table of cnfgen is the asserted `current`: `--seed` seeds while
+parsing, the re-seeding is guarded by `is not None`, and it stands before `build_formula` -/
+theorem source_variant_is_current : sourceVariant = current := by decide +kernel
+
+/-- pbgen has the same flow -/
+theorem pbgen_variant_is_current : (phasesOf "pbgen").map variantOf = some current := by
+  decide +kernel
+
+/-- a variant that seeds while parsing is deterministic (whatever its other two switches) -/
+theorem variant_run_deterministic {S : Type} (g : Gen S) (v : Variant) (hv : v.seedAtParse = true) (c : Cmd)
+    (s : Int) (hs : c.seed = some s) (hobj : c.printsObject = false) (env₁ env₂ : Env S) :
+    run g v c env₁ = run g v c env₂ := by
+  simp [run, hs, hobj, hv]
+
+/-- T-C07.1 on the hand-written phase model, for the variant computed from the source -/
 theorem run_deterministic {S : Type} (g : Gen S) (c : Cmd) (s : Int) (hs : c.seed = some s)
     (hobj : c.printsObject = false) (env₁ env₂ : Env S) :
-    run g current c env₁ = run g current c env₂ := by
-  simp [run, current, hs, hobj, effective]
+    run g sourceVariant c env₁ = run g sourceVariant c env₂ :=
+  variant_run_deterministic g sourceVariant (by rw [source_variant_is_current]; rfl) c s hs hobj env₁ env₂
 
 /-- the seed is recorded in the header exactly when one was given -/
 theorem header_records_seed {S : Type} (g : Gen S) (c : Cmd) (env : Env S) :
-    (run g current c env).headerSeed = c.seed := by
+    (run g sourceVariant c env).headerSeed = c.seed := by
+  rw [source_variant_is_current]
   cases h : c.seed <;> simp [run, current, effective, h]
 
 /-- without printing objects and with a seed, the observation is a function of (seed, draw counts) -/
 theorem run_function_of_seed {S : Type} (g : Gen S) (c₁ c₂ : Cmd) (s : Int)
     (h₁ : c₁.seed = some s) (h₂ : c₂.seed = some s) (hp : c₁.parseDraws = c₂.parseDraws)
     (hb : c₁.buildDraws = c₂.buildDraws) (ho₁ : c₁.printsObject = false) (ho₂ : c₂.printsObject = false)
-    (env₁ env₂ : Env S) : run g current c₁ env₁ = run g current c₂ env₂ := by
+    (env₁ env₂ : Env S) : run g sourceVariant c₁ env₁ = run g sourceVariant c₂ env₂ := by
+  rw [source_variant_is_current]
   simp [run, current, h₁, h₂, hp, hb, ho₁, ho₂, effective]
 
-/-! regression witnesses: the two historical defects break the statement (a counter-generator
-whose state is a counter makes the dependence on `rng₀` visible) -/
+/-! ## regression witnesses: the historical defects and two mutations of the order, as tables and as variants
+(a generator whose state is a counter makes the dependence on the hidden state visible) -/
 
 def counterGen : Gen Nat := ⟨fun s => s.natAbs * 1000, fun st => (st + 1, st)⟩
 
-/-- D2 (seed applied after the graph arguments were drawn): the parse-time draws leak `rng₀` -/
+/-- D2 as a table: `--seed` stored by the default action while graph arguments draw during parsing — rejected by
+the analysis, and the parse-time draws leak the initial state -/
+theorem tableD2_unsound : sound tableD2 = false := by decide +kernel
+theorem tableD2_leaks :
+    runEvents counterGen tableD2 ⟨some 5, 2, 1, 0, 0, false⟩ ⟨7, 0, 0, 0⟩ ≠
+    runEvents counterGen tableD2 ⟨some 5, 2, 1, 0, 0, false⟩ ⟨9, 0, 0, 0⟩ := by decide +kernel
+
+/-- D1 as a table: `if args.seed:` — rejected, and seed 0 leaks the initial state into the formula -/
+theorem tableD1_unsound : sound tableD1 = false := by decide +kernel
+theorem tableD1_leaks :
+    runEvents counterGen tableD1 ⟨some 0, 0, 2, 0, 0, false⟩ ⟨7, 0, 0, 0⟩ ≠
+    runEvents counterGen tableD1 ⟨some 0, 0, 2, 0, 0, false⟩ ⟨9, 0, 0, 0⟩ := by decide +kernel
+
+/-- `random.seed` moved behind `build_formula` (and no seeding action) — rejected, and the build leaks -/
+theorem tableLate_unsound : sound tableLate = false := by decide +kernel
+theorem tableLate_leaks :
+    runEvents counterGen tableLate ⟨some 5, 0, 2, 0, 0, false⟩ ⟨7, 0, 0, 0⟩ ≠
+    runEvents counterGen tableLate ⟨some 5, 0, 2, 0, 0, false⟩ ⟨9, 0, 0, 0⟩ := by decide +kernel
+
+/-- D2 on the hand-written model (seed applied after the graph arguments were drawn) -/
 theorem seed_after_parse_leaks :
     run counterGen ⟨false, true, true⟩ ⟨some 5, 2, 1, false⟩ ⟨7, 0, 0⟩ ≠
     run counterGen ⟨false, true, true⟩ ⟨some 5, 2, 1, false⟩ ⟨9, 0, 0⟩ := by decide
@@ -47,11 +157,29 @@ theorem seed_zero_ignored_leaks :
 
 /-- D3 (an object printed by address in the header) leaks the environment even with a seed -/
 theorem printed_object_leaks :
-    run counterGen current ⟨some 5, 0, 0, true⟩ ⟨7, 1, 0⟩ ≠
-    run counterGen current ⟨some 5, 0, 0, true⟩ ⟨7, 2, 0⟩ := by decide
+    run counterGen sourceVariant ⟨some 5, 0, 0, true⟩ ⟨7, 1, 0⟩ ≠
+    run counterGen sourceVariant ⟨some 5, 0, 0, true⟩ ⟨7, 2, 0⟩ := by decide +kernel
 
-/-- non-vacuity of `run_deterministic` on the same commands with the repaired flow -/
-example : run counterGen current ⟨some 0, 2, 2, false⟩ ⟨7, 1, 3⟩ =
-    run counterGen current ⟨some 0, 2, 2, false⟩ ⟨9, 2, 4⟩ := by decide
+/-- the same on the table-driven model: `printsObject = false` is a necessary hypothesis of T-C07.1 -/
+theorem printed_object_leaks_table :
+    (phasesOf "cnfgen").map (fun t => runEvents counterGen t ⟨some 5, 0, 0, 0, 0, true⟩ ⟨7, 0, 1, 0⟩) ≠
+    (phasesOf "cnfgen").map (fun t => runEvents counterGen t ⟨some 5, 0, 0, 0, 0, true⟩ ⟨7, 0, 2, 0⟩) := by
+  decide +kernel
+
+/-! non-vacuity: the hypotheses of the theorems are met by concrete, non-trivial runs -/
+
+example :
+    (phasesOf "cnfgen").map (fun t => runEvents counterGen t ⟨some 0, 2, 2, 1, 0, false⟩ ⟨7, 3, 1, 3⟩) =
+    (phasesOf "cnfgen").map (fun t => runEvents counterGen t ⟨some 0, 2, 2, 1, 0, false⟩ ⟨9, 4, 2, 4⟩) ∧
+    ((phasesOf "cnfgen").map (fun t => (runEvents counterGen t ⟨some 0, 2, 2, 1, 0, false⟩ ⟨7, 3, 1, 3⟩).laterVals.length))
+      = some 3 := by decide +kernel
+
+example :
+    (phasesOf "cnfshuffle").map (fun t => runEvents counterGen t ⟨some 0, 0, 0, 0, 3, false⟩ ⟨7, 3, 1, 3⟩) =
+    (phasesOf "cnfshuffle").map (fun t => runEvents counterGen t ⟨some 0, 0, 0, 0, 3, false⟩ ⟨9, 4, 2, 4⟩) ∧
+    (phasesOf "cnfshuffle").isSome := by decide +kernel
+
+example : run counterGen sourceVariant ⟨some 0, 2, 2, false⟩ ⟨7, 1, 3⟩ =
+    run counterGen sourceVariant ⟨some 0, 2, 2, false⟩ ⟨9, 2, 4⟩ := by decide +kernel
 
 end Cnfgen.C07
